@@ -401,6 +401,40 @@ func genSeq(r *lib.Rng, tier string) Case {
 	return c
 }
 
+// genBurst: more than a thousand codes issued together expire together and go in ONE sweep, while a few
+// younger ones survive it; the survivors are presented after their own expiry (and after a second sweep).
+// Counts at and around what a sweep might treat as "large" (1024) and "few left" (a quarter).
+func genBurst(r *lib.Rng) Case {
+	c := Case{Kind: "seq", TTL: 2}
+	n := r.Range(1024, 1600)
+	k := r.Range(1, n/4)
+	if r.Chance(1, 4) {
+		k = n/4 + r.Range(0, 8)
+	}
+	next := uint64(1)
+	for i := 0; i < n; i++ {
+		c.Ops = append(c.Ops, Op{K: "Submit", C: next, T: uint64(100 + i%900), B: 1})
+		next++
+	}
+	c.Ops = append(c.Ops, Op{K: "Count"}, Op{K: "Tick", Dt: 1})
+	first := next
+	for i := 0; i < k; i++ {
+		c.Ops = append(c.Ops, Op{K: "Submit", C: next, T: uint64(100 + i%900), B: uint64(2 + i%2)})
+		next++
+	}
+	c.Ops = append(c.Ops, Op{K: "Tick", Dt: 2}, Op{K: "Sweep"}, Op{K: "Count"}, Op{K: "Exchange", C: first}, Op{K: "Exchange", C: 1},
+		Op{K: "Tick", Dt: 1}, Op{K: "Count"})
+	for i := first + 1; i < next; i += 2 {
+		c.Ops = append(c.Ops, Op{K: "Exchange", C: i})
+	}
+	c.Ops = append(c.Ops, Op{K: "Sweep"}, Op{K: "Count"})
+	for i := first + 2; i < next; i += 2 {
+		c.Ops = append(c.Ops, Op{K: "Exchange", C: i})
+	}
+	c.Ops = append(c.Ops, Op{K: "Count"})
+	return c
+}
+
 func genRace(r *lib.Rng) Case {
 	c := Case{Kind: "race", TTL: 3, N: r.Range(2, 16)}
 	k := uint64(r.Range(1, 4))
@@ -509,9 +543,19 @@ func oracleSeq(c Case, idx int, res *lib.Result) {
 
 func histString(ops []Op) string {
 	var xs []string
-	for _, o := range ops {
+	for i := 0; i < len(ops); i++ {
+		o := ops[i]
 		switch o.K {
 		case "Submit":
+			j := i
+			for j+1 < len(ops) && ops[j+1].K == "Submit" && ops[j+1].B == o.B {
+				j++
+			}
+			if j-i >= 3 {
+				xs = append(xs, fmt.Sprintf("Submit x%d ->#%d..#%d(booking %d)", j-i+1, o.C, ops[j].C, o.B))
+				i = j
+				continue
+			}
 			xs = append(xs, fmt.Sprintf("Submit->#%d(booking %d)", o.C, o.B))
 		case "Exchange":
 			if o.H == 9 || o.H == 10 {
@@ -1422,7 +1466,71 @@ func childSweep(seed int64) {
 			lost++
 		}
 	}
-	fmt.Printf("{\"sweeps\":%d,\"twice\":%d,\"lost_first\":%d,\"survivors\":%d,\"lost\":%d}\n", sweeps, twice, lostFirst, survivors, lost)
+	// second part: sixty thousand codes expire together and go in ONE sweep while writers issue and exchange
+	// fresh codes across it; the fresh codes must come through with their own lifetime
+	cs2 := ttlcode.NewDefaultCodeStore()
+	time.Sleep(2 * time.Millisecond)
+	cs2.WithTTL(1)
+	for i := 0; i < 60000; i++ {
+		cs2.SubmitToken(keepTok)
+	}
+	time.Sleep(2100 * time.Millisecond)
+	var fresh [4][]string
+	var exch [4][]bool
+	var w2 sync.WaitGroup
+	go2 := make(chan struct{})
+	for g := 0; g < 4; g++ {
+		w2.Add(1)
+		go func(g int) {
+			defer w2.Done()
+			<-go2
+			for i := 0; i < 400; i++ {
+				code := cs2.SubmitToken(keepTok)
+				fresh[g] = append(fresh[g], code)
+				ok := false
+				if i%2 == 0 {
+					_, err := cs2.ExchangeCode(code)
+					ok = err == nil
+				}
+				exch[g] = append(exch[g], ok)
+			}
+		}(g)
+	}
+	issued2 := ttlcode.GetTime()
+	w2.Add(1)
+	go func() { defer w2.Done(); <-go2; cs2.CleanExpired(); cs2.CleanExpired() }()
+	close(go2)
+	w2.Wait()
+	sameSecond := ttlcode.GetTime() == issued2
+	lost2, twice2, late2 := 0, 0, 0
+	var keepForLater []string
+	for g := range fresh {
+		for i, code := range fresh[g] {
+			switch {
+			case i%2 == 0:
+				if !exch[g][i] && sameSecond {
+					lost2++ // presented in the second of its issue and refused
+				}
+				if _, err := cs2.ExchangeCode(code); err == nil {
+					twice2++
+				}
+			case i%4 == 1:
+				keepForLater = append(keepForLater, code)
+			default:
+				if _, err := cs2.ExchangeCode(code); err != nil && ttlcode.GetTime() <= issued2+1 {
+					lost2++
+				}
+			}
+		}
+	}
+	time.Sleep(time.Until(time.Unix(issued2+3, 100e6)))
+	for _, code := range keepForLater {
+		if _, err := cs2.ExchangeCode(code); err == nil {
+			late2++
+		}
+	}
+	fmt.Printf("{\"sweeps\":%d,\"twice\":%d,\"lost_first\":%d,\"survivors\":%d,\"lost\":%d,\"lost2\":%d,\"twice2\":%d,\"late2\":%d}\n",
+		sweeps, twice, lostFirst, survivors, lost, lost2, twice2, late2)
 }
 
 func runSweepChild(res *lib.Result, seed int64) {
@@ -1457,6 +1565,9 @@ func runSweepChild(res *lib.Result, seed int64) {
 		LostFirst int `json:"lost_first"`
 		Survivors int `json:"survivors"`
 		Lost      int `json:"lost"`
+		Lost2     int `json:"lost2"`
+		Twice2    int `json:"twice2"`
+		Late2     int `json:"late2"`
 	}
 	if json.Unmarshal(so.Bytes(), &out) != nil {
 		note(res, "sweep child left no result")
@@ -1473,6 +1584,19 @@ func runSweepChild(res *lib.Result, seed int64) {
 	if out.Survivors > 0 {
 		violate(res, lib.Violation{Clause: "survived-purge", Case: -1, Replay: rep, Key: "survived-purge:concurrent-sweep",
 			Detail: fmt.Sprintf(setting+"%d codes of purged bookings could still be exchanged", out.Survivors)})
+	}
+	const setting2 = "60 000 codes (ttl 1 s) expire together and go in one sweep while four writers issue 400 codes each and exchange every other one; afterwards: "
+	if out.Twice2 > 0 {
+		violate(res, lib.Violation{Clause: "code-exchanged-twice", Case: -1, Replay: rep, Key: "code-exchanged-twice:writers-racing-a-sweep",
+			Detail: fmt.Sprintf(setting2+"%d exchanged codes could be exchanged again", out.Twice2)})
+	}
+	if out.Late2 > 0 {
+		violate(res, lib.Violation{Clause: "exchanged-after-ttl", Case: -1, Replay: rep, Key: "exchanged-after-ttl:writers-racing-a-sweep",
+			Detail: fmt.Sprintf(setting2+"%d of the fresh codes were honoured 3 s after their issue", out.Late2)})
+	}
+	if out.Lost2 > 0 {
+		violate(res, lib.Violation{Clause: "live-code-lost", Case: -1, Replay: rep, Key: "live-code-lost:writers-racing-a-sweep",
+			Detail: fmt.Sprintf(setting2+"%d fresh codes presented within their lifetime were refused", out.Lost2)})
 	}
 	if out.Lost > 0 || out.LostFirst > 0 {
 		violate(res, lib.Violation{Clause: "live-code-lost", Case: -1, Replay: rep, Key: "live-code-lost:concurrent-sweep",
@@ -1531,6 +1655,60 @@ func sweeperCheck(res *lib.Result) {
 	default:
 		count(res, fmt.Sprintf("sweeper:first-sweep-at+%ds", vanished))
 	}
+	sweeperPeriods(res)
+}
+
+// sweeperPeriods: the real periodic sweeper (ttl 1 s: a sweep every 2 s) over three of its periods. A burst
+// of codes expires together and goes in one periodic sweep while a few younger codes survive it; each
+// survivor presented after its own expiry must be refused, whatever the sweeper did to the map meanwhile,
+// and a code presented within its lifetime must be honoured (one-sided on both sides: the sweeper's phase
+// is not under the harness's control).
+func sweeperPeriods(res *lib.Result) {
+	t0 := alignSecond()
+	cs := ttlcode.NewDefaultCodeStore().WithTTL(1) // sweeps just after t0+2, +4, +6
+	defer cs.Close()
+	at := func(sec int64, ms int) { time.Sleep(time.Until(time.Unix(t0+sec, int64(ms)*1e6))) }
+	late, early := 0, 0
+	surv := make([][]string, 3)
+	present := func(r int) {
+		for _, code := range surv[r][1:] {
+			if _, err := cs.ExchangeCode(code); err == nil {
+				late++
+			}
+		}
+	}
+	for r := 0; r < 3; r++ {
+		// a burst right after the sweep at t0+2r: it expires with second t0+2r+1 and goes in the sweep at t0+2r+2
+		at(int64(2*r), 300)
+		for i := 0; i < 1100+100*r; i++ {
+			cs.SubmitToken(tokenFor(1, 1))
+		}
+		// a few younger codes: they expire with second t0+2r+2, which that sweep still counts as alive
+		at(int64(2*r+1), 100)
+		for i := 0; i < 12; i++ {
+			surv[r] = append(surv[r], cs.SubmitToken(tokenFor(2, 2)))
+		}
+		issued := ttlcode.GetTime()
+		if _, err := cs.ExchangeCode(surv[r][0]); err != nil && ttlcode.GetTime() == issued {
+			early++
+		}
+		if r > 0 {
+			at(int64(2*r+1), 150)
+			present(r - 1) // issued in second t0+2r-1, expired with t0+2r: now is t0+2r+1
+		}
+	}
+	at(7, 150)
+	present(2)
+	rep := map[string]interface{}{"kind": "sweeper"}
+	if late > 0 {
+		violate(res, lib.Violation{Clause: "exchanged-after-ttl", Case: -1, Replay: rep, Key: "exchanged-after-ttl:periodic-sweeper",
+			Detail: fmt.Sprintf("store with ttl 1 s and its own sweeper running (a sweep every 2 s), bursts of 1100-1300 codes expiring together: %d codes that survived a sweep were honoured 2 s after their issue", late)})
+	}
+	if early > 0 {
+		violate(res, lib.Violation{Clause: "live-code-lost", Case: -1, Replay: rep, Key: "live-code-lost:periodic-sweeper",
+			Detail: fmt.Sprintf("%d codes presented in the second of their issue were refused while the periodic sweeper was at work", early)})
+	}
+	count(res, "sweeper:three-periods")
 }
 
 func main() {
@@ -1589,6 +1767,9 @@ func main() {
 		nE2ERace := a.Pick(6, 20)
 		for i := 0; i < nSeq; i++ {
 			cases = append(cases, genSeq(rng.Fork(), a.Tier))
+		}
+		for i := 0; i < a.Pick(2, 8); i++ {
+			cases = append(cases, genBurst(rng.Fork()))
 		}
 		for i := 0; i < nRace; i++ {
 			cases = append(cases, genRace(rng.Fork()))
